@@ -23,6 +23,9 @@ def run(tier, argv):
     Ls = "4" if quick else "5"
     r = vlib.tlc(work, "Life", "Life.cfg", consts={"MaxLen": Ls, "World": '"shared"'}, to_file=raws, timeout=6000, heap="24g")
     rep.add_tlc(r, "Life, shared world: all histories of length %s over two roots holding the same user-type object (one of them fails to compile)" % Ls)
+    raws2 = work.path("gen-shared2.txt")
+    r = vlib.tlc(work, "Life", "Life.cfg", consts={"MaxLen": Ls, "World": '"shared2"'}, to_file=raws2, timeout=6000, heap="24g")
+    rep.add_tlc(r, "Life, shared2 world: all histories of length %s over a root naming @A and a root inheriting from @A and @B (same type objects)" % Ls)
     rawd = work.path("gen-docs.txt")
     Ld = "4" if quick else "5"
     r = vlib.tlc(work, "Life", "Life.cfg", consts={"MaxLen": Ld, "World": '"docs"'}, to_file=rawd, timeout=6000, heap="24g")
@@ -30,7 +33,7 @@ def run(tier, argv):
     cases, docs = work.path("cases.ndjson"), work.path("docs.json")
     n = 0
     with open(cases, "w") as f:
-        for src in (raw, raws, rawd):
+        for src in (raw, raws, raws2, rawd):
             for l in vlib.tagged_file(src, "@@CASE"):
                 f.write(l + "\n")
                 n += 1
